@@ -179,6 +179,64 @@ def complete_rule(run, cfg, inst):
     return True, "cursor _%d; %d Ok returns, each dominated by an emptiness edge with no later read" % (C, len(oks))
 
 
+def complete_semantic(f, inst):
+    """Idiom-independent form of the complete-match rule (abstract interpreter): the input slice is marked, every
+    rest split off it inherits the mark; in every Ok case of the parser some local of the parser holding a marked
+    slice (the cursor) has length 0, i.e. nothing is left unread when Ok is returned."""
+    from ..ai.accept import variant_cases
+    from ..ai.exec import Exec
+    from ..ai.invariants import INVARIANTS
+    from ..ai.models import M
+    from ..ai.values import Enum, Ref, Seq
+
+    def mk(I, S, inst_, args):
+        a0 = args[0]
+        if isinstance(a0, Ref) and a0.cell is not None:
+            v0 = I.read(S, a0.cell, a0.path, ("c09mark",))
+            if isinstance(v0, Seq):
+                I.write(S, a0.cell, a0.path, Seq(v0.kind, v0.len, v0.elem, v0.efacts, v0.data, v0.prov | frozenset([("cursor",)])), ("c09markw",))
+        return args
+
+    seen = {"ok_sites": 0, "bad": []}
+
+    def hook(ev, **kw):
+        # every assignment of the parser's own return value, in the straight-line state where it happens
+        if ev != "ret_assign":
+            return None
+        v, S, frame_, I_ = kw["value"], kw["state"], kw["frame"], kw["interp"]
+        if not (isinstance(v, Enum) and "Ok" in v.variants):
+            return None
+        T = S
+        d = v.when.get("Ok")
+        if d is not None:
+            T = S.copy()
+            T.apply_delta(d)
+            if T.dead:
+                return None
+        seen["ok_sites"] += 1
+        lens = []
+        for c, x in T.cells.items():
+            if isinstance(c, tuple) and len(c) == 2 and c[0] == frame_ and isinstance(c[1], int) and c[1] > inst["body"]["arg_count"] and isinstance(x, Ref) and x.cell is not None:
+                q = I_.read(T, x.cell, x.path, ("c09cur",))
+                if isinstance(q, Seq) and ("cursor",) in q.prov:
+                    lens.append(T.ivof(q.len))
+        if not any(iv == D.point(0) for iv in lens):
+            seen["bad"].append([D.fmt(x) for x in lens])
+        return None
+
+    I = Exec(f, M, INVARIANTS)
+    I.keep_root_locals = True
+    I.hooks.append(hook)
+    R, frame, args = I.analyse_root(inst, mk)
+    if R is None:
+        return False, "parser has no return state"
+    if seen["ok_sites"] == 0:
+        return False, "no assignment of an Ok return value observed"
+    if seen["bad"]:
+        return False, "the parser's return value is set to Ok while no local holding a rest of the input is proven empty (remaining lengths %s)" % (seen["bad"][:2],)
+    return True, "%d assignment(s) of an Ok return value, each in a state where a marked rest of the input held by the parser has length 0" % seen["ok_sites"]
+
+
 def check(run, tier):
     configs = ["std"] if tier == "quick" else ["std", "alloc"]
     facts = get_facts(run, configs)
@@ -224,6 +282,11 @@ def check(run, tier):
                     total += check_day(run, cfg, mode, S, d1, "dst_start", where)
                     total += check_day(run, cfg, mode, S, d2, "dst_end", where)
         okc, why = complete_rule(run, cfg, parser)
+        oks2, why2 = complete_semantic(f, parser)
+        why = "dominance: %s; abstract interpreter: %s" % (why, why2)
+        # the rule holds if either form proves it (the dominance form is tied to one function's shape, the
+        # semantic form to the interpreter's precision); both are sound, so one is enough
+        okc = okc or oks2
         run.obligation(okc)
         run.sample({"rule": "COMPLETE", "function": parser["name"], "verdict": why})
         if not okc:
